@@ -354,6 +354,21 @@ def _out_array(shape, dt, layout):
     return big[..., ::2], (lambda: big[..., 1::2].tobytes() == snap)
 
 
+def _value_layouts(g):
+    """(name, array equal to ``g`` -- 'broadcast': to its first row -- in another memory layout).
+
+    The interpolators take ``f : numpy.ndarray``; nothing restricts its memory layout.
+    """
+    out = [('F', np.asfortranarray(g))]
+    out.append(('transposed', np.ascontiguousarray(g.swapaxes(0, 1)).swapaxes(0, 1)))
+    big = np.empty((2 * g.shape[0], g.shape[1] + 2) + g.shape[2:], dtype=g.dtype)
+    big[::2, 1:-1] = g
+    out.append(('strided', big[::2, 1:-1]))
+    out.append(('negative stride', np.ascontiguousarray(g[::-1])[::-1]))
+    out.append(('broadcast', np.broadcast_to(g[:1].copy(), g.shape)))
+    return out
+
+
 def _generic(nshape, dt):
     """Array of pairwise distinct small dyadic values (strings for 'U')."""
     n = int(np.prod(nshape))
@@ -478,13 +493,16 @@ def _run_interp(cfg):
             return rec.result()
 
     # --- (2) calling conventions on one generic value array
-    if dt == 'U':
-        sel = R.nearest_select(cvecs, pts)
-        want_g = g[np.ix_(*sel)]
-    elif dt == 'i64':
-        want_g = np.rint(R.apply_weights(W, g, d)).astype(npdt)
-    else:
-        want_g = R.apply_weights(W, g, d).astype(npdt)
+    def expected(vals):
+        vals = np.array(vals)               # a C-ordered copy: the reference ignores layouts
+        if dt == 'U':
+            return vals[np.ix_(*R.nearest_select(cvecs, pts))]
+        if dt == 'i64':
+            return np.rint(R.apply_weights(W, vals, d)).astype(npdt)
+        return R.apply_weights(W, vals, d).astype(npdt)
+
+    want_g = expected(g)
+    g0 = g.copy()
     try:
         I = _make_interp(sc, g, cvecs)
     except Exception as ex:
@@ -509,6 +527,30 @@ def _run_interp(cfg):
     pa = np.array(list(itertools.product(*pts))).T.reshape(d, -1)       # (d, N), C order
     okf = ok.ravel()
     wantf = want_g.ravel()
+
+    # memory layout of the value array (>= 2-d): same values, same results; never modified
+    if d >= 2:
+        for lname, gl in _value_layouts(g):
+            wl = expected(gl)
+            before = np.array(gl).tobytes()
+            try:
+                Il = _make_interp(sc, gl, cvecs)
+            except Exception as ex:
+                rec.viol(site, 'values[%s]_%s' % (lname, _exc(ex)), '%s: %r' % (where, ex))
+                continue
+            conv('mesh_values[%s]' % lname, lambda: Il(mesh), wl)
+            try:
+                got = Il(pa)
+                rec.evals += 1
+                if not _same(got, wl.ravel(), exact, npdt, okf):
+                    rec.viol(site, 'point_array_values[%s]_differs' % lname,
+                             '%s values strides %s: expected %s, got %s'
+                             % (where, gl.strides, _short(wl.ravel()), _short(got)))
+            except Exception as ex:
+                rec.viol(site, 'point_array_values[%s]_%s' % (lname, _exc(ex)),
+                         '%s: %r' % (where, ex))
+            if np.array(gl).tobytes() != before:
+                rec.viol(site, 'values_modified', '%s value array layout %s' % (where, lname))
 
     def conv_flat(name, call):
         try:
@@ -593,6 +635,9 @@ def _run_interp(cfg):
             if not _same(got, w, exact, npdt, ok[np.ix_(*sel)]):
                 rec.viol(site, name + '_differs', '%s mesh shapes %s: expected %s, got %s'
                          % (where, [x.shape for x in m], _short(w), _short(got)))
+
+    if g.tobytes() != g0.tobytes():
+        rec.viol(site, 'values_modified', '%s: the value array was changed by the calls' % where)
 
     # --- (3) node values are reproduced exactly (any grid, any scheme)
     nodes_mesh = sparse_meshgrid(*cvecs)
@@ -1082,6 +1127,24 @@ def _run_resample(cfg):
                      % (where, _short(g), _short(want), _short(got)))
     except Exception as ex:
         rec.viol(site, pre + _exc(ex), '%s: %r' % (where, ex))
+    if d >= 2:
+        # the same element stored in Fortran order / as a non-contiguous element
+        for lname, gl in _value_layouts(g)[:2]:
+            try:
+                x = dom.element(gl)
+                lay = 'C' if x.asarray().flags.c_contiguous else lname
+                got = op(x).asarray()
+                rec.evals += 1
+                rec.sigs.add('resample|input %s' % lay)
+                if not _same(got, want, exact, npdt, ok):
+                    rec.viol(site, 'values_differ[input %s]' % lname,
+                             '%s x=%s (strides %s): expected %s, got %s'
+                             % (where, _short(g), x.asarray().strides, _short(want),
+                                _short(got)))
+                if not np.array_equal(x.asarray(), g):
+                    rec.viol(site, 'input_modified', where)
+            except Exception as ex:
+                rec.viol(site, pre + 'input[%s]_%s' % (lname, _exc(ex)), '%s: %r' % (where, ex))
     # in-place call of the operator
     site = site0
     for lay in ['C'] + (['F'] if d >= 2 else []):
@@ -1173,6 +1236,25 @@ def _run_deform(cfg):
                      '%s nodes %s template %s displacement (per grid point) %s: expected %s, '
                      'got %s' % (where, nodes, _short(g), fld[:4], _short(want), _short(got)))
         last = (disp, want, ok, fld)
+
+    if last is not None and d >= 2:
+        # the same template stored in Fortran order
+        disp, want, ok, fld = last
+        templ_c = templ
+        try:
+            templ = sp.element(np.asfortranarray(g))
+            got = np.asarray(call(disp))
+            rec.evals += 1
+            if not _same(got, want, exact, npdt, ok):
+                rec.viol(site, 'values_differ[template F]',
+                         '%s template %s (strides %s) displacement %s: expected %s, got %s'
+                         % (where, _short(g), templ.asarray().strides, fld[:4], _short(want),
+                            _short(got)))
+            if not np.array_equal(templ.asarray(), g):
+                rec.viol(site, 'input_modified', where)
+        except Exception as ex:
+            rec.viol(site, 'template[F]_' + _exc(ex), '%s: %r' % (where, ex))
+        templ = templ_c
 
     # out=: "It must have the same shape as template ... If out was given, the returned
     # object is a reference to it."  (operators: the usual op(x, out=element))
@@ -1595,6 +1677,10 @@ def meta(tier):
                        'float|complex, ints for integer points) and a float-only control; '
                        'menu: single points, integer and float point arrays, element() / mesh '
                        'on three spaces, out=; all sequences of length %d' % (3 if th else 2),
+            'value_array_layouts': 'C, Fortran, transposed view, strided slice of a larger array, '
+                                   'negative stride, broadcast row (ndim >= 2; mesh and point '
+                                   'array input; the value array must stay unmodified); '
+                                   'Resampling / linear_deform also with F-ordered elements',
             'out_layouts': 'fresh C-contiguous, Fortran-ordered (ndim >= 2), every second entry '
                            'of the last axis of a larger buffer (the gaps must stay untouched); '
                            'linear_deform also with out = the data array of the template',
